@@ -77,9 +77,29 @@ def volReq : P String := do
   let cv ← ll
   pure (volReply sorted ⟨verts, edges, faces, cells⟩ pairs cf cv)
 
+open Mouette in
+/-- a history over two independent objects (the connectivity and the mesh-level caches): names prefixed `mesh.`
+go to the second machine -/
+def runNames2 (tc tm : VolLazy.Table) (qs : List String) : List String :=
+  let step := fun (acc : VolLazy.State × VolLazy.State × List String) (q : String) =>
+    if q.startsWith "mesh." then
+      let i := tm.methodNames.idxOf (q.drop 5).toString
+      if tm.alphabet.contains i then
+        let r := tm.stepQ acc.2.1 i
+        (acc.1, r.1, acc.2.2 ++ [VolLazy.fmtOutcome r.2])
+      else (acc.1, acc.2.1, acc.2.2 ++ ["bad-name"])
+    else
+      let i := tc.methodNames.idxOf q
+      if tc.alphabet.contains i then
+        let r := tc.stepQ acc.1 i
+        (r.1, acc.2.1, acc.2.2 ++ [VolLazy.fmtOutcome r.2])
+      else (acc.1, acc.2.1, acc.2.2 ++ ["bad-name"])
+  (qs.foldl step (tc.fresh.1, tm.fresh.1, [])).2.2
+
+
 def lazyReq : P String := do
   let qs ← listOf tok
-  pure (" ".intercalate (VolLazy.runNames Mouette.Generated.C03.volumeGuards qs))
+  pure (" ".intercalate (runNames2 Mouette.Generated.C03.volumeGuards Mouette.Generated.C03.meshGuards qs))
 
 def handle (ts : List String) : Option String :=
   match ts with
